@@ -858,6 +858,29 @@ class Interp:
             out.append(self.eval(node.elt, e2, func, depth))
         return out
 
+    def e_DictComp(self, node, env, func, depth):
+        if len(node.generators) != 1:
+            raise AnalysisError("unsupported comprehension")
+        g = node.generators[0]
+        it = self.eval(g.iter, env, func, depth)
+        if isinstance(it, dict):
+            it = list(it)
+        if not isinstance(it, (list, tuple, range)):
+            raise AnalysisError("unsupported comprehension iterable")
+        out = {}
+        for x in it:
+            e2 = dict(env)
+            self.assign(g.target, x, e2, func, depth)
+            keep = True
+            for c in g.ifs:
+                t = self.truth(self.eval(c, e2, func, depth))
+                if t is None:
+                    raise AnalysisError("%s:%d comprehension filter not decided" % (func.qualname, node.lineno))
+                keep = keep and bool(t)
+            if keep:
+                out[self._freeze_key(self.eval(node.key, e2, func, depth))] = self.eval(node.value, e2, func, depth)
+        return out
+
     def e_GeneratorExp(self, node, env, func, depth):
         # a generator object: the same elements as the list comprehension, but it can be consumed ONCE.
         # Passed at once to a builtin (any / all / sum / list / tuple / sorted) it is just a sequence; kept in
@@ -1283,9 +1306,12 @@ class Interp:
                     return [[k, v] for k, v in obj.items()]
                 if type(obj) is dict:
                     # a dictionary the code itself built: the mutating methods act on it
-                    if name == "update" and len(args) <= 1 and (not args or isinstance(args[0], dict)):
+                    pairs = lambda x: isinstance(x, (list, tuple)) and all(isinstance(kv, (list, tuple)) and len(kv) == 2 for kv in x)
+                    if name == "update" and len(args) <= 1 and (not args or isinstance(args[0], dict) or pairs(args[0])):
                         if args:
-                            obj.update(args[0])
+                            src = args[0].items() if isinstance(args[0], dict) else args[0]
+                            for k_, v_ in list(src):
+                                obj[self._freeze_key(k_)] = v_
                         obj.update(kwargs)
                         return None
                     if name == "setdefault" and len(args) == 2:
@@ -1437,6 +1463,32 @@ class Interp:
                         return args[2]
                     raise
             raise AnalysisError("%s:%d unsupported builtin %s" % (func.qualname, ln, base))
+        if name in ("copy.copy", "copy.deepcopy") and len(args) == 1 and not kwargs:
+            # a copy: the same entries / values in another object (abstract values are immutable here, so shallow and deep agree
+            # except for containers of containers, copied one level deeper by deepcopy)
+            import copy as _copy
+            a = args[0]
+            if isinstance(a, ParamDict):
+                return ParamDict({}, present=set(a.present) | set(a.entries), make=a.get)
+            if isinstance(a, (dict, list)):
+                c = _copy.copy(a)
+                if name == "copy.deepcopy":
+                    if isinstance(c, dict):
+                        for k_ in list(c):
+                            if isinstance(c[k_], (dict, list)):
+                                c[k_] = _copy.copy(c[k_])
+                    else:
+                        c[:] = [_copy.copy(x) if isinstance(x, (dict, list)) else x for x in c]
+                return c
+            if isinstance(a, SArr):
+                return a.copy()
+            if isinstance(a, Vec):
+                return Vec(a.x, a.y)
+            if self.dom.is_value(a) or _is_conc(a) or a is None or isinstance(a, str):
+                return a
+            raise AnalysisError("%s:%d %s of a %s" % (func.qualname, ln, name, type(a).__name__))
+        if name == "types.MappingProxyType" and len(args) == 1 and isinstance(args[0], dict):
+            return args[0]              # a read-only view: the same lookups
         if not name.startswith("np"):
             if any(name.startswith(m) for m in self.opaque_modules):
                 if getattr(self, "ext_value", None) is not None:
